@@ -267,6 +267,10 @@ func (h *SimH) do(q *Req, c flamego.Context, rw http.ResponseWriter, r *http.Req
 			c.ResponseWriter().Before(func(w flamego.ResponseWriter) {
 				sched.Yield(SiteBefore)
 				q.ev(EvBefore, h.HID, id, itoa(w.Status()))
+				if id < 0 {
+					q.ev(EvRaise, h.HID, -1, "")
+					panic(PanicToken(q.Name, h.Pos))
+				}
 				w.Header().Add("X-Before", q.Name+"."+itoa(id))
 			})
 		}
